@@ -253,7 +253,14 @@ def gen(rng, q, cls, step, ctx):
     if cls == "raw":
         cmd = rng.choice([0x10, 0x20, 0x30, 0x00, 0x40, 0xF0])
         n = rng.choice([0, 1, 2, 12, 15, 16, 17, 100, 1200, 4096, 9000, 65000])
-        return (proto.RAW_MAGIC + bytes([cmd | (ctx.get("userid", 0) & 15)]) + rb(rng, min(n, 1500)) + b"\0" * max(0, n - 1500))[:65507]
+        d = (proto.RAW_MAGIC + bytes([cmd | (ctx.get("userid", 0) & 15)]) + rb(rng, min(n, 1500)) + b"\0" * max(0, n - 1500))[:65507]
+        if rng.random() < 0.3:
+            d = d[:rng.choice([0, 1, 2, 3, 3, 3, 4, 5])]         # runt frames: the magic alone, or cut inside it
+        elif rng.random() < 0.2 and "frame" in ctx:
+            # a genuine-looking data frame whose zlib stream is cut short by a few bytes
+            z = zlib.compress(ctx["frame"]())
+            d = proto.RAW_MAGIC + bytes([0x20 | (ctx.get("userid", 0) & 15)]) + z[:len(z) - rng.choice([1, 2, 3, 4, 5, 8])]
+        return d
     return None
 
 
